@@ -289,6 +289,10 @@ func TestC07(t *testing.T) {
 					continue
 				}
 				capExec := 1 << 30
+				widen := plan.From > 0 || plan.To > 0 // block-range plans: also branch right after the publish
+				if widen && n >= 3 {
+					capExec = r.Pick(4000, 200000)
+				}
 				if n >= 4 {
 					// N = 4: capped per plan (quick: 2500; thorough: 400000 - only the block-range plans whose
 					// all-skipped batches are relaunched exceed it; enumerations_complete says which finished)
@@ -301,6 +305,7 @@ func TestC07(t *testing.T) {
 				execs, complete, msg, choices := dfsEnumerate(n, plan.Fault, capExec, func(s *Sched) string {
 					r.Tick()
 					s.OnState = func(h uint64) { r.State(h ^ planHash) }
+					s.BranchAfterPublish = widen
 					return c07Exec(plan, s)
 				}, func(s *Sched) {
 					r.Eval(vrt.HashOf(s.TraceString()+c07Label(plan)), n >= 2 && s.Choices > 0, "plan:"+c07Label(plan))
